@@ -248,5 +248,6 @@ def evaluate(ctx, checks):
 
 
 def replay(ctx, data):
-    print('replay: the case is stored in the file (repr); re-run `VERIF_SEED=%s ./check C09` to reproduce' % data.get('seed'))
-    return False
+    """Re-runs the generating stream with the recorded seed/tier and looks for the recorded signature."""
+    import sys
+    return runner.replay_by_rerun(sys.modules[__name__], ctx, data)
